@@ -249,7 +249,7 @@ def run(chk):
     tool.close()
 
     # ---- phase B: histories
-    n_hist = 96 if quick else 480
+    n_hist = 72 if quick else 480
     jobs, names = [], []
     for fn, c in corpus:
         if "history" in c:
@@ -268,7 +268,7 @@ def run(chk):
     results = run_many(jobs)
 
     # ---- phase C: crash points (oracle only)
-    n_crash = 100 if quick else 1200
+    n_crash = 80 if quick else 1200
     cjobs = []
     for i in range(n_crash):
         opts = BASE_OPTS + OPTION_SETS[i % len(OPTION_SETS)][1] + ["--gc-policy", "versions=%d" % rng.choice([1, 2])]
